@@ -756,15 +756,32 @@ func genLazy(r *rand.Rand, series []seriesIn, ext []string) input {
 	in := input{Kind: "lazy", Series: series, Ext: ext}
 	for {
 		in.Matchers = nil
-		for _, m := range genMatchers(r, series, ext) {
-			if m.Name != ext[0] {
-				in.Matchers = append(in.Matchers, m)
+		if r.Intn(10) < 3 {
+			for _, m := range genMatchers(r, series, ext) {
+				if m.Name != ext[0] {
+					in.Matchers = append(in.Matchers, m)
+				}
 			}
-		}
-		if r.Intn(2) == 0 { // broad matchers on several labels: several groups with many keys
-			for _, n := range []string{"__name__", "a", "b"} {
-				if r.Intn(3) > 0 {
-					in.Matchers = append(in.Matchers, matcherIn{Type: common.Pick(r, "!=", "=~", "!~", "!="), Name: n, Value: common.Pick(r, "", ".+", "nope|", "a0", "x.*")})
+		} else { // matchers that give several posting groups with existing keys
+			for _, n := range []string{"__name__", "a", "b", "c"} {
+				if r.Intn(3) == 0 {
+					continue
+				}
+				switch r.Intn(7) {
+				case 0:
+					in.Matchers = append(in.Matchers, matcherIn{Type: "!=", Name: n, Value: ""})
+				case 1:
+					in.Matchers = append(in.Matchers, matcherIn{Type: "=~", Name: n, Value: ".+"})
+				case 2:
+					in.Matchers = append(in.Matchers, matcherIn{Type: "=~", Name: n, Value: map[string]string{"__name__": "(m1|up)", "a": "a0|a1|a2", "b": "[xyz].*", "c": "1|2"}[n]})
+				case 3:
+					in.Matchers = append(in.Matchers, matcherIn{Type: "!=", Name: n, Value: map[string]string{"__name__": "up", "a": "a0", "b": "x0", "c": "1"}[n]})
+				case 4:
+					in.Matchers = append(in.Matchers, matcherIn{Type: "!~", Name: n, Value: map[string]string{"__name__": "m.*", "a": "a1|a3", "b": "y.*", "c": "10"}[n]})
+				case 5:
+					in.Matchers = append(in.Matchers, matcherIn{Type: "=~", Name: n, Value: map[string]string{"__name__": "m.*|up", "a": "a.*", "b": ".*1", "c": ".*"}[n]})
+				default:
+					in.Matchers = append(in.Matchers, matcherIn{Type: "=", Name: n, Value: map[string]string{"__name__": "up", "a": "a0", "b": "x0", "c": "1"}[n]})
 				}
 			}
 		}
@@ -773,9 +790,9 @@ func genLazy(r *rand.Rand, series []seriesIn, ext []string) input {
 		}
 	}
 	mr := common.Pick(r, [2]int64{1, 2}, [2]int64{1, 4}, [2]int64{1, 1}, [2]int64{1, 8}, [2]int64{3, 4}, [2]int64{1, 1024})
-	kr := common.Pick(r, [2]int64{0, 1}, [2]int64{0, 1}, [2]int64{1, 2}, [2]int64{2, 1}, [2]int64{100, 1}, [2]int64{1, 4})
+	kr := common.Pick(r, [2]int64{0, 1}, [2]int64{0, 1}, [2]int64{1, 2}, [2]int64{2, 1}, [2]int64{100, 1}, [2]int64{1, 4}, [2]int64{1, 1}, [2]int64{1, 1}, [2]int64{3, 1}, [2]int64{3, 2})
 	in.Ratio = [4]int64{mr[0], mr[1], kr[0], kr[1]}
-	in.EstSize = common.Pick(r, uint64(0), 1, 1, 2, 8, 1000)
+	in.EstSize = common.Pick(r, uint64(0), 1, 1, 1, 1, 2, 2, 4, 8, 1000)
 	return in
 }
 
@@ -968,12 +985,13 @@ func genConfigs(r *rand.Rand) []configIn {
 	out = append(out, base) // eager, no index cache
 	c := base               // eager, index cache, small batches
 	c.IndexCache = true
-	c.Sampling = common.Pick(r, 1, 2, 3, 64)
+	c.Sampling = common.Pick(r, 1, 1, 1, 2, 3, 64) // index-header sampling rate 1 (every value in memory) is the common case here
 	c.BatchSize = common.Pick(r, 1, 2, 3, 7)
 	c.MaxGap = common.Pick(r, uint64(0), 1, 100, 512*1024)
 	out = append(out, c)
 	c = base // lazy postings that really trigger (tiny series size estimate), index cache
 	c.Lazy, c.IndexCache, c.EstSeries = true, true, 1
+	c.Sampling = common.Pick(r, 32, 1, 1, 2, 5)
 	c.MatchRatio = common.Pick(r, 0.05, 0.05, 0.5, 1.0)
 	c.KeyRatio = common.Pick(r, 0, 0, 0.5, 100)
 	c.BatchSize = common.Pick(r, 1, 4, 10000)
